@@ -53,6 +53,9 @@ ALL_HARNESSES = ['vlq_encode', 'vlq_decode', 'lookup', 'ordering', 'header', 'he
 # C05 (nothing panics) runs every harness -- each of them catches panics of the code under test -- but only a panic counts for it
 PROPERTY_BOUNDED['C05'] = list(ALL_HARNESSES)
 PANIC_ONLY = {'C05'}
+# a harness shared between properties reports several kinds of disagreement; a property counts only the kind that is its own
+PROPERTY_BOUNDED['C04'] = PROPERTY_BOUNDED.get('C04', []) + ['adjust']
+ONLY_IF = {('C04', 'adjust'): 'not ordered'}
 _results = {}
 _built = {}
 DEEP = False   # set by check.py in the thorough tier: harnesses enumerate their larger stated spaces
